@@ -28,7 +28,7 @@ type AddrManager struct {
 
 	// in number of second
 	expires time.Duration
-	index   map[uint32]string
+	index   map[addrIndexKey]string
 	addrs   map[string]*ManagedAddress
 	use     AddrUse
 
@@ -74,6 +74,12 @@ type AddrManager struct {
 	// manager is already unlocked.  The hash is zeroed each lock.
 	privPassphraseSalt   [saltSize]byte
 	hashedPrivPassphrase [sha512.Size]byte
+}
+
+// addrIndexKey identifies a managed address by its branch and child index.
+type addrIndexKey struct {
+	branch uint32
+	index  uint32
 }
 
 type Keystore struct {
@@ -467,7 +473,7 @@ func (a *AddrManager) nextAddresses(dbTransaction db.DBTransaction, checkfunc fu
 
 		pass := false
 		for i := startIndex; i < nextIndex; i++ {
-			addr, ok := a.index[i]
+			addr, ok := a.index[addrIndexKey{branch, i}]
 			if !ok {
 				continue
 			}
@@ -578,7 +584,7 @@ func (a *AddrManager) nextAddresses(dbTransaction db.DBTransaction, checkfunc fu
 func (a *AddrManager) updateManagedAddress(dbTransaction db.DBTransaction, managedAddresses []*ManagedAddress) error {
 	for _, managedAddress := range managedAddresses {
 		a.addrs[managedAddress.address] = managedAddress
-		a.index[managedAddress.derivationPath.Index] = managedAddress.address
+		a.index[addrIndexKey{managedAddress.derivationPath.Branch, managedAddress.derivationPath.Index}] = managedAddress.address
 	}
 
 	am := dbTransaction.FetchBucket(a.storage)
